@@ -460,7 +460,7 @@ Qed.
 Lemma wf_run_setup su t w w' : wf_tables w -> run_setup su t w = Some w' -> wf_tables w'.
 Proof.
   intros H E. destruct su; cbn [run_setup] in E.
-  - inversion E; subst; exact H.
+  - inversion E; subst. frame_eq H.
   - destruct (trk_start true k t (tr_se w)); inversion E; subst. frame_eq H.
   - destruct (trk_start true k t (tr_er w)); inversion E; subst. frame_eq H.
   - destruct (trk_start false k t (tr_de w)); inversion E; subst. frame_eq H.
